@@ -9,7 +9,7 @@ import (
 func init() { register("C08", propC08) }
 
 func propC08(c *Ctx) {
-	c.Explanation = "Decides structural necessary conditions of IPv4 reassembly for all inputs and schedules: (F1) Fragmentation.{reassemblers,rList,size} and reassembler.{holes,deleted,heap,done,size} are accessed only under their mutexes and lookup-or-create of the reassembler is one critical section; (F2) a fragment is stored only when it filled part of a hole, the datagram is handed up (done) only when every hole is deleted and the heap reassembled without error, and a failed reassembly drops the datagram instead of panicking; (F3) an existing reassembler is reused only when it is not older than the timeout; (F4) the reassembly key is computed from all four of identification, protocol, source and destination, and ipv4.HandlePacket passes first = fragment offset, last = offset + payload size - 1, more = MF bit, taking the fragment path exactly when MF is set or the offset is non-zero; (F5) memory accounting moves with the stored bytes; (F6) RFC 815 hole bookkeeping in updateHoles: the exact site table (which hole is deleted under which overlap condition, which remainder holes are created with which bounds) and (F7) reassemble: fragments are merged in heap (offset) order, every popped fragment is either appended (after trimming exactly the overlap size-offset) or the whole reassembly fails on a gap - no fragment is skipped. (F9) link typestate of the reassembler list; F6 also tables the reassembler's initial hole 0..65535. NOT decided: the algebra of the hole list over all fragment sequences (that the bookkeeping is sufficient), 32-bit key collisions between datagrams."
+	c.Explanation = "Decides structural necessary conditions of IPv4 reassembly for all inputs and schedules: (F1) Fragmentation.{reassemblers,rList,size} and reassembler.{holes,deleted,heap,done,size} are accessed only under their mutexes and lookup-or-create of the reassembler is one critical section; (F2) a fragment is stored only when it filled part of a hole, the datagram is handed up (done) only when every hole is deleted and the heap reassembled without error, and a failed reassembly drops the datagram instead of panicking; (F3) an existing reassembler is reused only when it is not older than the timeout; (F4) the reassembly key is computed from all four of identification, protocol, source and destination, and ipv4.HandlePacket passes first = fragment offset, last = offset + payload size - 1, more = MF bit, taking the fragment path exactly when MF is set or the offset is non-zero; (F5) memory accounting moves with the stored bytes; (F6) RFC 815 hole bookkeeping in updateHoles: the exact site table (which hole is deleted under which overlap condition, which remainder holes are created with which bounds) and (F7) reassemble: fragments are merged in heap (offset) order, every popped fragment is either appended (after trimming exactly the overlap size-offset) or the whole reassembly fails on a gap - no fragment is skipped. (F9) link typestate of the reassembler list; F6 also tables the reassembler's initial hole 0..65535. (F10) the fragment heap's container/heap implementation over the fragment offset. NOT decided: the algebra of the hole list over all fragment sequences (that the bookkeeping is sufficient), 32-bit key collisions between datagrams."
 	c.Assumptions = []string{"container/heap orders by fragHeap.Less", "reassembler.size is only read by release after checkDoneOrMark, which is a barrier on reassembler.mu (exception with reason)"}
 	fr := "(*fragmentation.reassembler)."
 	f1 := c.Rule("F1", "K4 lockset", "fragmentation state only under its mutexes", 30)
@@ -177,6 +177,9 @@ func propC08(c *Ctx) {
 			{Kind: "store", Target: "fragmentation.reassembler.id", Args: []string{"new(fragmentation.reassembler)", "$0"}, Guards: []string{}, Exact: true, N: 1, Why: "the reassembler remembers the key it is stored under (release deletes by it)"},
 		})
 	}
+
+	f10 := c.Rule("F10", "K9 site tables (closed)", "the fragment heap is a heap over the fragment offset: Len/Less/Swap/Push/Pop", 7)
+	c.HeapImpl(f10, "(*fragmentation.fragHeap).", "(*fragmentation.fragHeap).", "($0[$1].offset < $0[$2].offset)")
 
 	f9 := c.Rule("F9", "typestate", "a reassembler's list links are not read after its removal unless Remove preserves them (eviction walks from the tail)", 1)
 	c.LinkTypestate(f9, "fragmentation.reassemblerList", "fragmentation.reassemblerEntry")
